@@ -116,7 +116,7 @@ func main() {
 		if e1 == nil && e2 == nil && e3 == nil {
 			break
 		}
-		if i > 3000 {
+		if i > 20000 {
 			must(fmt.Errorf("listeners did not come up: %v %v %v", e1, e2, e3))
 		}
 		time.Sleep(2 * time.Millisecond)
